@@ -142,6 +142,17 @@ pub static OP_REFUSED: AtomicBool = AtomicBool::new(false);
 pub static H_SEED: AtomicU64 = AtomicU64::new(0);
 pub static H_NOPS: AtomicU64 = AtomicU64::new(0);
 pub static PREFIX: AtomicU8 = AtomicU8::new(3); // property number for the signature prefix
+/// sticky: which system calls the monitor has been told to fail so far in this history
+/// (bit 0 mremap, bit 1 munmap); goes into every signature reported from then on
+pub static FAULT_TAG: AtomicU8 = AtomicU8::new(0);
+pub fn fault_tag() -> &'static str {
+    match FAULT_TAG.load(Ordering::Relaxed) & 3 {
+        1 => "/mremap-fails",
+        2 => "/munmap-fails",
+        3 => "/mremap+munmap-fails",
+        _ => "",
+    }
+}
 static mut FAULTSPEC: [u8; 200] = [0; 200];
 static FAULTSPEC_LEN: AtomicU64 = AtomicU64::new(0);
 
@@ -269,6 +280,7 @@ extern "C" fn on_fatal(sig: i32, _info: *mut u8, _ctx: *mut u8) {
     b.u(u64::from(PREFIX.load(Ordering::Relaxed)));
     b.s("/");
     b.s(KIND_NAMES[(OP_KIND.load(Ordering::Relaxed) & 7) as usize]);
+    b.s(fault_tag());
     b.s(match w {
         W_ALLOC_CALL => "/crash-in-allocator",
         W_CHECK_CALL => "/crash-in-invariant-walker",
@@ -329,13 +341,15 @@ fn plus(base: usize, d: isize) -> usize {
     }
 }
 
-/// `style`: 0 general, 1 small-heavy, 2 segment-heavy (64 KiB .. MiB), 3 tree-heavy, 4 general w/ more huge
+/// `style`: 0 general, 1 small-heavy, 2 segment-heavy (64 KiB .. MiB), 3 tree-heavy, 4 general w/ more huge, 5 trim-heavy
 pub fn gen_size(r: &mut Rng, style: u64, room: usize) -> usize {
     let class = match style {
         1 => *r.pick(&[0u8, 0, 0, 1, 1, 1, 1, 2, 2, 3, 7]),
         2 => *r.pick(&[0u8, 1, 3, 4, 4, 4, 5, 5, 5, 7, 6]),
         3 => *r.pick(&[1u8, 2, 2, 2, 3, 3, 3, 3, 7, 4]),
         4 => *r.pick(&[0u8, 1, 2, 3, 4, 5, 5, 6, 6, 7]),
+        // trim-heavy: blocks of 64 KiB .. 8 MiB, so that frees next to top cross the trim threshold
+        5 => *r.pick(&[4u8, 4, 5, 5, 5, 8, 8, 8, 3, 7]),
         _ => *r.pick(&[0u8, 0, 1, 1, 1, 2, 2, 3, 3, 3, 4, 5, 7, 7]),
     };
     let s = match class {
@@ -371,6 +385,8 @@ pub fn gen_size(r: &mut Rng, style: u64, room: usize) -> usize {
         ),
         // 16..48 MiB
         6 => (16usize << 20) + r.below(32 << 20) as usize,
+        // 2.5..8 MiB
+        8 => (5usize << 19) + r.below(11 << 19) as usize,
         // log-uniform 1 .. 256 KiB
         _ => {
             let bits = r.range(0, 18);
